@@ -1427,8 +1427,8 @@ def _gen_cases(prop, tier, seed):
         return cases
     if prop == "C17":
         n = 120 if quick else 3000
-        # the recorded finding F33, every run: a rule without a class value whose name changes only in
-        # letter case; the class a client is given is the rule's name as the *old* file spelled it
+        # the witness of F33 (fixed), every run: a rule without a class value whose name changes only in
+        # letter case; on the pinned tree the client was given the name as the *old* file spelled it
         w_old = Cfg(timeout=0, services=[], rules=[("Users", [("address", "*")])])
         w_new = Cfg(timeout=0, services=[], rules=[("users", [("address", "*")])])
         w_ops = [inl("5 C 1.2.3.4 1234 0::1 6667"), inl("5 N host.example"), inl("5 u ident"), inl("5 n nick"),
@@ -1599,9 +1599,9 @@ def mutate_cfg(rng, cfg, mods):
                   rules=[] if (mods == "class" and rng.random() < 0.7) else rules)
         out.drop_empty = rng.random() < 0.75
         return out
-    if rng.random() < 0.04 and (rules or services):
-        # only the letter case of a name changes (finding F33: the merge keeps the old spelling, so a
-        # rule's name used as class, or a service's name, differs from a fresh start's)
+    if rng.random() < 0.08 and (rules or services):
+        # only the letter case of a name changes (F33: the merge kept the old spelling, so a rule's
+        # name used as class, or a service's name, differed from a fresh start's)
         if rules and (mods == "class") and rng.random() < 0.6:
             k = rng.randrange(len(rules))
             rules[k] = (rules[k][0].swapcase(), [x for x in rules[k][1] if x[0] != "class"])
@@ -1949,9 +1949,6 @@ def respelled_names(case):
 
 def classify(prop, f):
     group = getattr(f, "group", None) or [f.case]
-    if prop == "C17" and any(respelled_names(c) for c in group):
-        # an entry whose name changed only in letter case across a reload: one finding (F33)
-        return "proto:C17:name-respelled-in-place"
     if len(service_names(f.case)) > 32:
         # more service names than the per-client masks have bits: one finding whatever the symptom
         return "proto:%s:more-than-32-service-slots" % prop
@@ -2029,7 +2026,11 @@ THEOREMS = {
             "Iauthd.Properties.C11_class_len", "Iauthd.Addr.mask_spec"],
     "C17": ["Iauthd.Properties.C17_delivery", "Iauthd.Properties.C17_rules", "Iauthd.Properties.C17_inherit_same_rules",
             "Iauthd.Properties.C17_timeout", "Iauthd.Properties.C17_services", "Iauthd.Properties.C17_services_fresh",
-            "Iauthd.Properties.C17_rules_fresh", "Iauthd.Proto.servicesChanged_exact", "Iauthd.Proto.configService_effect",
+            "Iauthd.Properties.C17_rules_fresh", "Iauthd.Properties.C17_config_fresh", "Iauthd.Properties.C17_last_rescan",
+            "Iauthd.Properties.C17_no_rescan", "Iauthd.Properties.C17_reload_is_rescan", "Iauthd.Properties.C17_reflects_start",
+            "Iauthd.Properties.C17_reflects_reload", "Iauthd.Properties.C17_reloads", "Iauthd.Properties.C17_reloads_fresh",
+            "Iauthd.Proto.rescanWalk_last", "Iauthd.Proto.rescanWalk_nil", "Iauthd.Proto.rescanWalk_mem",
+            "Iauthd.Proto.deliverXq_exact", "Iauthd.Proto.deliverXq_keeps", "Iauthd.Proto.servicesChanged_exact", "Iauthd.Proto.configService_effect",
             "Iauthd.Proto.scan_inv", "Iauthd.Proto.unrefAll_mem", "Iauthd.Proto.servicesChanged_allConf"],
 }
 
@@ -2049,7 +2050,7 @@ def lean_targets(prop):
 
 
 def lean_modules(prop):
-    return ["Iauthd.Proto.Text", "Iauthd.Proto.Model", "Iauthd.Proto.Handlers", "Iauthd.Proto.Step", "Iauthd.Proto.Hist", "Iauthd.Proto.Proofs", "Iauthd.Proto.Table", "Iauthd.Proto.Props", "Iauthd.Proto.Holds", "Iauthd.Proto.Chunk", "Iauthd.Proto.Names"] + (
+    return ["Iauthd.Proto.Text", "Iauthd.Proto.Model", "Iauthd.Proto.Handlers", "Iauthd.Proto.Step", "Iauthd.Proto.Deliver", "Iauthd.Proto.Hist", "Iauthd.Proto.Proofs", "Iauthd.Proto.Table", "Iauthd.Proto.Props", "Iauthd.Proto.Holds", "Iauthd.Proto.Chunk", "Iauthd.Proto.Names"] + (
         ["Iauthd.Proto.Render", "Iauthd.Proto.RenderHex", "Iauthd.Proto.RenderLines", "Iauthd.Proto.RenderInv", "Iauthd.Proto.RenderStep",
          "Iauthd.Proto.RenderConf", "Iauthd.Addr.ProofsChars"] if prop in ("C09", "C04", "C01", "C10") else []) + (
         ["Iauthd.Proto.Spec01", "Iauthd.Proto.RenderDec", "Iauthd.Proto.Parse01", "Iauthd.Proto.Trace01", "Iauthd.Proto.Sim01",
@@ -2063,7 +2064,7 @@ def lean_modules(prop):
          "Iauthd.Proto.Render", "Iauthd.Proto.RenderHex", "Iauthd.Proto.RenderLines", "Iauthd.Proto.RenderInv", "Iauthd.Proto.RenderStep",
          "Iauthd.Proto.Sim01", "Iauthd.Properties.C10"] if prop == "C07" else []) + (
         ["Iauthd.Proto.RefInv", "Iauthd.Proto.RefInvH", "Iauthd.Proto.Rel07", "Iauthd.Proto.Keep07", "Iauthd.Proto.Hist07", "Iauthd.Proto.Start07",
-         "Iauthd.Proto.Reload17", "Iauthd.Proto.Sim01"] if prop == "C17" else []) + ["Iauthd.Properties." + prop]
+         "Iauthd.Proto.Reload17", "Iauthd.Proto.Reload17b", "Iauthd.Proto.Sim01"] if prop == "C17" else []) + ["Iauthd.Properties." + prop]
 
 
 def checker_cmd(prop):
